@@ -94,7 +94,7 @@ def observed_attrs(cfg, tree, classes):
     for n in nodes:
       if n[0] == "text":
         for ch in n[1]:
-          out.append((ch, dict(cur)))
+          out.append((ch, {k: v for k, v in cur.items() if not k.startswith("_")}))
       elif n[0] == "tag":
         nxt = dict(cur)
         name = n[1]
@@ -102,6 +102,9 @@ def observed_attrs(cfg, tree, classes):
           nxt[name] = True
         elif name == "font":
           nxt["color"] = _css_color(n[3] or "") or ("unparsed", n[3])
+          if nxt["color"] == cur.get("color") and not cur.get("_colour_tag_open"):
+            nxt.setdefault("redundant-colour-tag", name)      # default colour stated again where no colour tag is open
+          nxt["_colour_tag_open"] = True
         elif name == "c":
           for cl in n[2]:
             d = classes.get(cl) or ((_VTT_DEFAULT_CLASSES[cl][0], None) if cl in _VTT_DEFAULT_CLASSES else None)
@@ -112,6 +115,9 @@ def observed_attrs(cfg, tree, classes):
             val = _css_color(d[1]) if d[1] is not None else _VTT_DEFAULT_CLASSES[cl][1]
             if prop == "color":
               nxt["color"] = val
+              if val == cur.get("color") and not cur.get("_colour_tag_open"):
+                nxt.setdefault("redundant-colour-tag", cl)
+              nxt["_colour_tag_open"] = True
             elif prop == "background-color":
               nxt["bg"] = val
         else:
